@@ -1496,3 +1496,23 @@ mut("x-c19-match-form-fast-path-for-mixed", "C19", "src/cgi/mod.rs",
             (VarNameInner::Static(_), _) | (_, VarNameInner::Static(_)) => false,
             _ => self.as_var() == other.as_var(),""",
     "R19.2/owned-eq", "an interned name never equals a custom spelling of itself (match form)", base="x6-r7")
+
+# ---- nv::write in fold form (t5-r5, w5-r8): decided by E8 with closures, Result combinators and array folds -------------------------------
+mut("x-c16-fold-count-not-accumulated", "C16", "src/protocol/nv.rs",
+    """        len.write(&mut w).map(|n| written + n)""",
+    """        len.write(&mut w).map(|n| written.max(n))""",
+    "R16.4/write", "the fold keeps the larger prefix length instead of the sum", base="t5-r5")
+mut("x-c16-fold-prefix-order-swapped", "C16", "src/protocol/nv.rs",
+    """    let head_len = [name.len(), value.len()].into_iter().try_fold(0, |written, len| {""",
+    """    let head_len = [value.len(), name.len()].into_iter().try_fold(0, |written, len| {""",
+    "R16.4/write", "the value's length prefix is written before the name's", base="w5-r8")
+mut("x-c16-fold-wrong-error-kind", "C16", "src/protocol/nv.rs",
+    """            .map_err(|e| io::Error::new(io::ErrorKind::InvalidInput, e))
+            .and_then(|v| v.write(&mut w))""",
+    """            .map_err(|e| io::Error::new(io::ErrorKind::InvalidData, e))
+            .and_then(|v| v.write(&mut w))""",
+    "R16.4/write", "an oversized length is reported as InvalidData", base="w5-r8")
+mut("x-c16-fold-constant-prefix-count", "C16", "src/protocol/nv.rs",
+    """            .map(|n| written + n)""",
+    """            .map(|_| written + 1)""",
+    "R16.4/write", "every prefix is counted as one byte", base="w5-r8")
